@@ -542,7 +542,12 @@ def addColumn (db : Db) (name coltype : Py.Str) (value : Val) (tn : Py.Str) : Db
 
 def defaultTable : Py.Str := "ATOM".toList
 
-/-- the loop of `_fix_chainID` that fills `newID` -/
+/-- `newID[ind] = letter`: IndexError outside the list; a negative index counts from the end -/
+def setNewID (newID : List Val) (ind : Int) (letter : Val) : Except Err (List Val) :=
+  let j : Int := if ind < 0 then ind + newID.length else ind
+  if j < 0 ∨ j ≥ newID.length then .error .indexError else .ok (newID.set j.toNat letter)
+
+/-- the loop of `_fix_chainID` that fills `newID` (`for ind in index: newID[ind] = ascii_uppercase[ic]`) -/
 def fillNewID (db : Db) : List (Nat × Py.Str) → List Val → Except Err (List Val)
   | [], newID => .ok newID
   | (ic, chain) :: rest, newID =>
@@ -550,7 +555,9 @@ def fillNewID (db : Db) : List (Nat × Py.Str) → List Val → Except Err (List
     | .error e => .error e
     | .ok index =>
       let letter : Val := .text [Char.ofNat (65 + ic)]
-      fillNewID db rest (index.foldl (fun acc ind => if ind < 0 then acc else acc.set ind.toNat letter) newID)
+      match index.foldlM (fun acc ind => setNewID acc ind letter) newID with
+      | .error e => .error e
+      | .ok newID' => fillNewID db rest newID'
 
 /-- `_fix_chainID` up to the final `update_column`: the new chain identifiers, one per atom -/
 def fixChainIDNew (db : Db) : Except Err (List Val) :=
